@@ -808,6 +808,12 @@ impl Server {
             }
 
             if let Some(metadata) = self.get_metadata(url) {
+                // A background task that is still running has pass1 output
+                // pending (references, imports, ...). Apply it while the
+                // tokens it refers to exist: the drop below may remove them.
+                if !self.background_tasks.is_empty() {
+                    Analyzer::analyze_post_pass1();
+                }
                 // Drop before parse: parse re-registers the text, so
                 // dropping after would erase the just-registered entry.
                 if let Some(path_id) = resource_table::get_path_id(path.to_path_buf()) {
